@@ -89,6 +89,18 @@ def observe(base: bytes, rid: int, addr: int, contexts: bool, truncations: bool,
     return {"id": rid, "b": list(base), "o": rows}
 
 
+def observe_followers(base: bytes, rid: int, addr: int, followers: List[bytes]) -> Dict[str, Any]:
+    """the base string alone, then base[:L] followed by each follower (context 6)"""
+    r0 = consumers(base, addr, True)
+    rows = [[0, len(base)] + r0]
+    L = r0[1] if r0[0] == 1 else 0
+    if L > 0:
+        for fw in followers:
+            buf = base[:L] + fw
+            rows.append([6, len(buf)] + consumers(buf, addr, True))
+    return {"id": rid, "b": list(base), "o": rows, "fw": [list(f) for f in followers]}
+
+
 def il_digest(data: bytes, addr: int) -> str:
     """Canonical serialisation of the lifted mock LLIL of the instruction at data."""
     from binja_test_mocks.mock_llil import MockLowLevelILFunction
